@@ -2,3 +2,10 @@
 
 // Contracts for package writer.
 package writer
+
+//@ func Writer.WriteStreamWithOptions
+//@   props C07
+//@   requires w.Options != nil && o != nil && defaultOptions != nil && defaultOptions.SerializeOptions != nil && defaultOptions.RenderOptions != nil
+
+//@ func GetFormatSerializer
+//@   props C07
